@@ -15,8 +15,9 @@ def run(ctx):
     deadline = ctx["deadline"] or (300 if tier == "quick" else 1500)
     nsh = vlib.NCPU * 2
     L, K = (3, 5) if tier == "quick" else (3, 7)
+    T = 3 if tier == "quick" else 5
     res = vlib.Results()
-    for space, maxlen in ((2, 0), (1, L), (3, K)):
+    for space, maxlen in ((2, 0), (4, T), (1, L), (3, K)):
         n = 4 if space == 2 else nsh
         args = [["--space", space, "--maxlen", maxlen, "--shard", i, "--nshards", n, "--deadline", int(deadline)] for i in range(n)]
         vlib.run_shards(exe, args, env, timeout=deadline * 1.5 + 120, res=res, label="xparse")
@@ -25,13 +26,15 @@ def run(ctx):
     cov = {
         "evaluations": int(st.get("cases", 0)),
         "distinct_nontrivial": int(st.get("cases", 0)) - 1,
-        "rule": "every input of three spaces is parsed with orc_parse_code; all inputs are distinct by construction (enumerated by index); "
+        "rule": "every input of four spaces is parsed with orc_parse_code; all inputs are distinct by construction (enumerated by index); "
                 "non-trivial = everything except the empty string. Space 1: all sequences of 1..%d lines over a %d-line alphabet (every "
                 "directive with missing/extra/17+ tokens, opcodes with too few/many operands, literal spellings, x2/x4 alone, unknown names, "
                 "comments, blanks) x {LF, CRLF, no final newline} x {preceded by an open function or not}. Space 2: limit files (99..300 "
                 "instructions, each variable class at limit-1..limit+2, 7..12 literals, 15..200 tokens per line, 10k-character tokens, "
-                "1..200 errors, 100 functions). Space 3: all strings of length <= %d over the bytes . x 2 4 a 0 - , # space tab LF CR."
-                % (L, 60, K),
+                "1..200 errors, 100 functions). Space 3: all strings of length <= %d over the bytes . x 2 4 a 0 - , # space tab LF CR. Space 4: every token of length <= %d over "
+                "- + 0 1 9 x . e l L a in each of 15 places where the parser converts a token to a number (constant values of size 2/4/8, "
+                "literal operands of int/float/double/64-bit opcodes, variable sizes, alignment, .n/.n mult/.n min/.n max/.m values)."
+                % (L, 60, K, T),
         "samples": res.samples or [{"note": "none"}],
         "programs_returned_compiled_and_freed": int(st.get("compiled", 0)),
         "error_records_checked": int(st.get("error_records", 0)),
